@@ -313,12 +313,95 @@ def run(tier, seed):
     vw2 = w2.init(jax.random.key(5), x)
     if not _close(w2.bind(vw2)(x), w2.apply(vw2, x)):
       fails.append(dict(inputs=dict(program='bound submodule plugged into a new parent'), observed='bind(v)(x) differs from apply(v, x)', violated='bind-equals-apply'))
+    # re-entrant compact calls (super().__call__, a compact method calling itself / another compact method): every
+    # nn.Dense that the program creates gets its own auto name and its own parameters, in creation order
+    created = []
+
+    def dense(width, h):
+      created.append(width)
+      return nn.Dense(width)(h)
+
+    class Parent(nn.Module):
+      @nn.compact
+      def __call__(self, h):
+        return dense(5, dense(4, h))
+
+    class Child(Parent):
+      @nn.compact
+      def __call__(self, h):
+        h = super().__call__(h)
+        return dense(2, dense(6, h))
+
+    class Rec(nn.Module):
+      @nn.compact
+      def __call__(self, h, d=2):
+        h = dense(3 + d, h)
+        if d > 0:
+          h = self(h, d - 1)
+        return dense(7 + d, h)
+
+    class Two(nn.Module):
+      @nn.compact
+      def helper(self, h):
+        return dense(4, h)
+
+      @nn.compact
+      def __call__(self, h):
+        return dense(6, self.helper(dense(3, h)))
+    for pname, mod in (('subclass whose compact __call__ extends super().__call__()', Child()), ('compact __call__ calling itself (depth 2)', Rec()),
+                       ('compact __call__ calling another compact method', Two())):
+      cases += 1
+      inp = dict(program=pname)
+      try:
+        created.clear()
+        y0, v0 = mod.init_with_output(key, x)
+        widths = list(created)
+        got = {k: np.asarray(v['kernel']).shape[-1] for k, v in v0['params'].items()}
+        want = {f'Dense_{i}': w for i, w in enumerate(widths)}
+        if got != want:
+          fails.append(dict(inputs=inp, observed=f'the program creates Dense layers of widths {widths} (in this order); init returns parameters {got}, expected {want}', violated='tree-mirrors-modules'))
+        elif not _close(mod.apply(v0, x), y0):
+          fails.append(dict(inputs=inp, observed='apply on the variables init returned gives another output', violated='apply-reproduces-init'))
+      except Exception as e:  # noqa
+        fails.append(dict(inputs=inp, observed=f'raised {e!r}'[:300], violated='tree-mirrors-modules'))
+    # two different submodules that end up with the same name in setup: an error, never silent sharing
+    def clash(kind):
+      class M(nn.Module):
+        def setup(self):
+          if kind == 'explicit / explicit':
+            self.first, self.second = nn.Dense(3, name='same'), nn.Dense(3, name='same')
+          elif kind == 'attribute name / explicit':
+            self.enc, self.other = nn.Dense(3), nn.Dense(3, name='enc')
+          elif kind == 'list element a_0 / attribute a_0':
+            self.a_0 = nn.Dense(3)
+            self.a = [nn.Dense(3)]
+          elif kind == 'dict element blk_x / attribute blk_x':
+            self.blk = {'x': nn.Dense(3)}
+            self.blk_x = nn.Dense(3)
+          else:
+            self.lin, self.sc = nn.Dense(3, name='unit'), nn.LayerNorm(name='unit')
+
+        def __call__(self, h):
+          subs = [getattr(self, a) for a in ('first', 'second', 'enc', 'other', 'a_0', 'blk_x', 'lin', 'sc') if hasattr(self, a)]
+          subs += list(getattr(self, 'a', [])) + list(getattr(self, 'blk', {}).values())
+          for sm in subs:
+            h = sm(h)
+          return h
+      return M()
+    for kind in ('explicit / explicit', 'attribute name / explicit', 'list element a_0 / attribute a_0', 'dict element blk_x / attribute blk_x', 'two classes, one name'):
+      cases += 1
+      try:
+        vv = clash(kind).init(key, jnp.ones((2, 3)))
+        fails.append(dict(inputs=dict(program='setup() attaching two different submodules under one name', kind=kind),
+                          observed=f'no error: init returned {_sig(vv)}'[:300], violated='name-clash-raises'))
+      except Exception:  # noqa  (NameInUseError or another refusal)
+        pass
   except Exception:
     import traceback
     return dict(name=NAME, cases=cases, distinct=cases, failures=fails[:3], error=traceback.format_exc()[-1500:])
   return dict(name=NAME, cases=cases, distinct=cases,
               bound='6 module programs (auto names, setup style, repeated call, one instance in two fields / two parents, module as field) x {init twice, apply, mutable apply, 3 shape-only variants x 3 mutable filters, '
-                    'missing / misshapen parameter}; name clashes; bind / re-bind / unbind on 4 programs',
+                    'missing / misshapen parameter}; name clashes (compact and 5 setup forms); 3 re-entrant compact programs; bind / re-bind / unbind on 4 programs',
               failures=fails[:3], error=None)
 
 
